@@ -155,6 +155,16 @@ fn c16_corpus(tier: Tier) -> Vec<(String, Spec)> {
     v.push(("kw_skip_plain".into(), Spec::new(true, vec![vcore::spec::Pat::skip("rem"), vcore::spec::Pat::regex("[a-zA-Z]+").prio(1)])));
     v.push(("kw_skip_icase".into(), Spec::new(true, vec![vcore::spec::Pat::skip("rem").icase(), vcore::spec::Pat::regex("[a-zA-Z]+").prio(1)])));
     v.push(("kw_bytes_plain".into(), Spec::new(false, vec![vcore::spec::Pat::regex("select|from|where"), vcore::spec::Pat::regex("[a-z]+").prio(1)])));
+    // two patterns that differ only in a trailing look-ahead, at the same priority (every child of
+    // the shared state accepts a different leaf)
+    v.push(("kw_la_pair1".into(), Spec::new(true, vec![vcore::spec::Pat::regex("a(?-u:\\b)"), vcore::spec::Pat::regex("a(?-u:\\B)")])));
+    v.push(("kw_la_pair2".into(), Spec::new(true, vec![vcore::spec::Pat::regex("if(?-u:\\b)"), vcore::spec::Pat::regex("if(?-u:\\B)"), vcore::spec::Pat::regex("[a-z]+").prio(1)])));
+    v.push(("kw_la_pair3".into(), Spec::new(false, vec![vcore::spec::Pat::skip("#(?-u:\\b)"), vcore::spec::Pat::regex("#(?-u:\\B)"), vcore::spec::Pat::regex("x(?m:$)"), vcore::spec::Pat::regex("x(?-u:\\b{start-half})").prio(9)])));
+    // edge merges: one whose merged class contains 0xff, and ordinary ones expanded before / after it
+    v.push(("kw_ff_merge".into(), Spec::new(false, vec![vcore::spec::Pat::bregex(b"\\x01z|\\xFFz")])));
+    v.push(("kw_ff_merge2".into(), Spec::new(false, vec![vcore::spec::Pat::bregex(b"[\\xf0-\\xff]q|[\\x00-\\x0f]q"), vcore::spec::Pat::bregex(b"\\xffz|az")])));
+    v.push(("kw_merge".into(), Spec::new(true, vec![vcore::spec::Pat::regex("ab|cb")])));
+    v.push(("kw_merge_b".into(), Spec::new(false, vec![vcore::spec::Pat::regex("ab|cb"), vcore::spec::Pat::regex("[x-z]w|[0-3]w")])));
     if tier == Tier::Thorough {
         // one representative per distinct graph shape of the quick family
         let fam = vcore::enumerate::family(Tier::Quick);
